@@ -6,7 +6,11 @@ import vlib
 from props import common
 from props import acc_common as A
 
-THEOREMS = ['Acc/AccFacts.v: get_type_keyword (ANY prefix of whitespace leaves / comment leaves / Comment groups, then a DML or DDL '
+THEOREMS = ['Props/C18b.v / Inst/C18Barrier.v: C18_barrier (UNBOUNDED, pipeline level: any token list pre ++ (ty, kw) :: rest with skippable pre, '
+            'DML/DDL ty and barrier_guard: group with all 25 passes succeeds and get_type = upper kw), passes_sinv (all 25 passes keep '
+            'the keyword leaf a direct child preceded only by skippable children), C18_barrier_lexed (through cur_parse), '
+            'C18_barrier_text_cut / C18_barrier_text_partial (text level), five refutations showing each guard conjunct necessary',
+            'Acc/AccFacts.v: get_type_keyword (ANY prefix of whitespace leaves / comment leaves / Comment groups, then a DML or DDL '
             'keyword leaf, then ANYTHING: get_type = upper(value)), get_type_cte (WITH ... Identifier/IdentifierList ws* DML: the '
             'DML keyword), get_type_unknown_blank / _other (UNKNOWN otherwise), get_type_total (never raises)',
             'Inst/CaseInv.v C_lex_case_single + Inst/Words.v: every DML/DDL dictionary word in every letter case lexes as one token '
@@ -16,10 +20,21 @@ THEOREMS = ['Acc/AccFacts.v: get_type_keyword (ANY prefix of whitespace leaves /
             'splitter, all 25 passes and get_type)',
             'C18_rest_ignored_refuted (select(1)), C18_select_dot_unknown, C18_drop_typecast_unknown, '
             'C18_create_or_replace_refuted: the full statement is false of the unchanged tree (findings)']
-TRUSTED = ['exact model of get_type tied to the code by the acc correspondence; that the leading keyword STAYS the first '
-           'significant child through all 25 passes (no pass starts a group at a DML/DDL leaf) is checked by the direct oracle over '
-           'prefixes x casings x continuations, not yet a theorem']
+TRUSTED = ['exact model of get_type and hand-written model of the 25 passes, tied to the code by the acc / parse correspondence and '
+           'the pass-table translator']
 ASSUMPTIONS = []
+
+
+def _tail_class(tail):
+    """Mechanisms found while proving the barrier theorem (Inst/C18Barrier.v: the conjuncts of barrier_guard)."""
+    import re
+    if re.match(r'(?i)at\s+time\s+zone\b', tail):
+        # group_tzcasts: valid_prev = `token is not None`: the keyword becomes the left operand of AT TIME ZONE
+        return 'keyword-absorbed-by-following:tzcast'
+    if len(re.findall(r':=', tail)) >= 2:
+        # group_assignment groups up to a far `;` and continues with stale indices: a second `:=` regroups from index 0
+        return 'assignment-stale-index-regroups-from-start'
+    return None
 
 
 def _class(inst, d):
@@ -36,6 +51,9 @@ def _class(inst, d):
         for sym in ('::', ':=', '.'):
             if a.strip() == '' and tail.startswith(sym):
                 return 'keyword-absorbed-by-following:' + sym
+        cls = _tail_class(tail) if a.strip() == '' else None
+        if cls:
+            return cls
         return 'deviation:keyword:after=%r' % a
     if k == 'create_or_replace':
         if inst.get('sp') != '  ' and isinstance(d.get('observed'), str) and ' '.join(d['observed'].split()) == 'CREATE OR REPLACE':
@@ -46,6 +64,9 @@ def _class(inst, d):
         for sym in ('::', ':=', '.'):
             if inst.get('rest', '').lstrip().startswith(sym):
                 return 'keyword-absorbed-by-following:' + sym
+        cls = _tail_class(inst.get('rest', '').lstrip())
+        if cls:
+            return cls
     return 'deviation:' + k
 
 
